@@ -102,16 +102,26 @@ let () =
        let nonempty = List.map (fun s -> split s <> []) opstrs in
        (* onopen=<interval>,<offset>: the application's OnOpen callback - the last thing Open() does - calls SetHeartbeatIntervalAndOffset:
           the same run, with that setter applied right after the operation in which the node opens (xrun is this fold without it) *)
-       let onopen = match String.split_on_char ',' (get "onopen" "") with [a; b] -> Some (z_of_string a, z_of_string b) | _ -> None in
+       let pair k = match String.split_on_char ',' (get k "") with [a; b] -> Some (z_of_string a, z_of_string b) | _ -> None in
+       let onopen = pair "onopen" and appsched = pair "appsched" in
        let opsl = List.filter_map (fun x -> x) ops in
-       let (r, evs) = match onopen with
-         | None -> xrun gf_none r0 opsl
-         | Some (iv, off) ->
-           let (r, acc) = List.fold_left (fun (r, acc) o ->
+       let (r, evs) = if onopen = None && appsched = None then xrun gf_none r0 opsl else
+           (* appsched=<period>,<offset>: the application's own tN2kSyncScheduler (Model/Sched.v ssched), set in the OnOpen callback and polled
+              after every operation with the calls the harness makes: IsTime, and UpdateNextTime when it fires (EvNote 7) *)
+           let (r, _, acc) = List.fold_left (fun (r, app, acc) o ->
                let (r1, ev) = xstep gf_none r o in
                let opened = List.exists (function EvNote c -> int_of_z c = 1 | _ -> false) ev in
-               let r2 = if opened then fst (xstep gf_none r1 (XBase (RSetHeartbeat (iv, off, zi (-1))))) else r1 in
-               (r2, ev :: acc)) (r0, []) opsl in
+               let r2 = match onopen with Some (iv, off) when opened -> fst (xstep gf_none r1 (XBase (RSetHeartbeat (iv, off, zi (-1))))) | _ -> r1 in
+               let (r3, app) = match appsched with
+                 | Some (p, o) when opened ->
+                   if int_of_z p = 0 then (r2, Some { ss_next = ss_disabled; ss_offset = o; ss_period = p })
+                   else let (r', t) = millis64 r2 in (r', Some (ss_update_next t r'.r_sync { ss_next = ss_disabled; ss_offset = o; ss_period = p }))
+                 | _ -> (r2, app) in
+               let (r4, app, ev) = match app with
+                 | Some a -> let (r', t1) = millis64 r3 in
+                   if ss_is_time t1 a then let (r'', t2) = millis64 r' in (r'', Some (ss_update_next t2 r''.r_sync a), ev @ [EvNote (zi 7)]) else (r', app, ev)
+                 | None -> (r3, app, ev) in
+               (r4, app, ev :: acc)) (r0, (match appsched with Some (p, o) -> Some { ss_next = ss_disabled; ss_offset = o; ss_period = p } | None -> None), []) opsl in
            (r, List.rev acc) in
        if r.r_oob then print_string "oob" else begin
        let rec pr first ops ne evs = match ops, ne with
